@@ -38,7 +38,7 @@ LineViol(e) ==
                 {Sig(k, PairClass(e.a, e.b), e) :
                     k \in DisjunctKinds(D, e.a, e.b, e.dis) \cup ConjunctKinds(D, e.a, e.b, e.con) \cup AlignKinds(D, e.a, e.b, e.al)}
            [] e.ev = "acct" ->
-                {Sig(k, GetterClass(D, e.acct, e.g), e) : k \in GetterKinds(D, e.acct, e.g)} \cup ClawViol(D, e)
+                {Sig(k, GetterKindClass(k, D, e.acct, e.g), e) : k \in AllGetterKinds(D, e.acct, e.g)} \cup ClawViol(D, e)
            [] e.ev = "panic" -> {Sig("panic", e.where, e)}
            [] OTHER -> {Sig("unknown-line", e.ev, e)}
 
@@ -64,6 +64,10 @@ LineDiv(e) ==
                        \* LockedCoins without delegations: original - min(vested, unlocked)
                        e.g.lockedcoins[k] = CSub(e.acct.orig, CMin(e.g.vested[k], e.g.unlocked[k]))
                   THEN {} ELSE {Div("locked-coins", e)})
+            \cup (IF ~HasCap(e.g) \/ \A k \in DOMAIN e.g.ts :
+                       /\ e.g.unlockedvested[k] = MUnlockedVested(D, e.acct, e.g.ts[k])
+                       /\ e.g.lockedupvested[k] = MLockedUpVested(D, e.acct, e.g.ts[k])
+                  THEN {} ELSE {Div("unlocked-vested", e)})
       [] OTHER -> {}
 
 \* only the first occurrence of every signature is kept (nbad counts the violating lines)
